@@ -48,6 +48,10 @@ var universe = []typ{
 	{Key: "arr", Type: "[2]int", Val: "[2]int{1, 2}", Unnamed: true, Named: "arrT"},
 	{Key: "ustruct", Type: "struct{ X int }", Val: "struct{ X int }{8}", Unnamed: true, Named: "xsT"},
 	{Key: "tok", Type: "Token", Val: "Token{ID: 99, Idx: 99}", Discard: true, OtherNm: "tok2T"},
+	// a type imported from another package that has the SAME NAME as the parser package
+	{Key: "samename", Type: "hp.NodeH", Val: "hp.NodeH{V: 5}", OtherNm: "nodeH2T"},
+	// ... while the parser package defines a type of that name itself
+	{Key: "samename-shadow", Type: "hp.ShadowH", Val: "hp.ShadowH{V: 6}", OtherNm: "shadow2T"},
 }
 
 const decls = `
@@ -88,7 +92,12 @@ type (
 	arrT   [2]int
 	xsT    struct{ X int }
 	tok2T  Token
+	nodeH2T  hp.NodeH
+	shadow2T hp.ShadowH
 )
+
+// ShadowH has the same name as a type of the imported helper package.
+type ShadowH struct{ W string }
 
 var (
 	theNode = &nodeT{1}
@@ -264,13 +273,13 @@ func (c *Case) render() (*rendered, bool) {
 	r.lox = lox.String()
 
 	var g strings.Builder
-	g.WriteString("package PKGNAME\n\nimport (\n\t\"bytes\"\n\t\"reflect\"\n\t\"strings\"\n\t\"time\"\n)\n\nvar _ = time.Second\nvar _ = strings.Repeat\nvar _ bytes.Buffer\n")
+	g.WriteString("package PKGNAME\n\nimport (\n\t\"bytes\"\n\t\"reflect\"\n\t\"strings\"\n\t\"time\"\n\n\thp \"verifscratch/helper/PKGNAME\"\n)\n\nvar _ hp.NodeH\nvar _ = time.Second\nvar _ = strings.Repeat\nvar _ bytes.Buffer\n")
 	g.WriteString(decls)
 	tt, _ := c.termType()
 	g.WriteString("\ntype listPT " + strings.Replace(tt, "*[]", "[]", 1) + "\n")
 	if !strings.HasPrefix(tt, "[]") {
 		g.Reset()
-		g.WriteString("package PKGNAME\n\nimport (\n\t\"bytes\"\n\t\"reflect\"\n\t\"strings\"\n\t\"time\"\n)\n\nvar _ = time.Second\nvar _ = strings.Repeat\nvar _ bytes.Buffer\n")
+		g.WriteString("package PKGNAME\n\nimport (\n\t\"bytes\"\n\t\"reflect\"\n\t\"strings\"\n\t\"time\"\n\n\thp \"verifscratch/helper/PKGNAME\"\n)\n\nvar _ hp.NodeH\nvar _ = time.Second\nvar _ = strings.Repeat\nvar _ bytes.Buffer\n")
 		g.WriteString(decls)
 		g.WriteString("\ntype listPT []int\n")
 	}
@@ -526,7 +535,8 @@ func eval(run *ev.Run, cases []*Case, count bool) ([]verdict, error) {
 		}
 		rs[i] = r
 		c.Lox, c.Go = r.lox, r.gofile
-		files = append(files, map[string]string{"g.lox": r.lox, "user.go": r.gofile})
+		files = append(files, map[string]string{"g.lox": r.lox, "user.go": r.gofile,
+			"../helper/PKGNAME/h.go": "package PKGNAME\n\ntype NodeH struct{ V int }\n\ntype ShadowH struct{ V int }\n"})
 	}
 	b, err := forge.GenerateOnly(files, false, false) // the real `go list`: the Go side is the subject
 	if err != nil {
@@ -546,6 +556,7 @@ func eval(run *ev.Run, cases []*Case, count bool) ([]verdict, error) {
 		if count {
 			run.Eval(1)
 			run.Class("skel:" + c.Skel)
+			run.Class("type:" + c.T)
 			run.Class("param:" + c.Param)
 			run.Class("struct:" + c.Struct)
 			if r.positive {
@@ -698,7 +709,7 @@ const knownStarF = "C06-starf-without-discard"
 func TestC06(t *testing.T) {
 	run := ev.Start("C06")
 	defer run.Finish(t)
-	run.Rule = "grammar skeletons (sequence, x?, x+, x*, @list, @list?, x*!, an @error alternative, C* over tokens) x a type universe for the rule's result (int, string, pointer, named struct, unnamed and named slice, map, func, chan, interface, any, generic instance, imported time.Duration / *bytes.Buffer / *strings.Builder, array, unnamed struct, Token) x how the receiving parameter is typed (identical, any, implemented interface, assignable-but-not-identical named type or <-chan; negative: other named type with equal underlying type, value vs pointer, unimplemented interface) x structural layout (one method, method shared by two productions; negative: missing method, wrong arity, two matching methods, differing return types, orphan method, 0 or 2 results); the legality of every case is known by construction (no call to go/types); " +
+	run.Rule = "grammar skeletons (sequence, x?, x+, x*, @list, @list?, x*!, an @error alternative, C* over tokens) x a type universe for the rule's result (int, string, pointer, named struct, unnamed and named slice, map, func, chan, interface, any, generic instance, imported time.Duration / *bytes.Buffer / *strings.Builder, a type imported from a package whose NAME equals the parser package's name (with and without a local type of the same name), array, unnamed struct, Token) x how the receiving parameter is typed (identical, any, implemented interface, assignable-but-not-identical named type or <-chan; negative: other named type with equal underlying type, value vs pointer, unimplemented interface) x structural layout (one method, method shared by two productions; negative: missing method, wrong arity, two matching methods, differing return types, orphan method, 0 or 2 results); the legality of every case is known by construction (no call to go/types); " +
 		"oracle: (1) lox succeeds exactly on the legal cases and a failure's diagnostic names the production's line or the method; (2) on success the package compiles with the generated files (real go list + go build); (3) at run time every action parameter equals the value the producing action returned (reflect.DeepEqual; identity for pointers, channels, funcs; zero value for an absent x?), for 2-3 sentences per skeleton; " +
 		"non-trivial = negative case or parameter type not identical to the term's type; distinct by (skeleton, type, parameter kind, layout)"
 	run.Assumptions = []string{"Go assignability as in the language specification", "for interface-typed parameters an absent optional may arrive as untyped nil or as the boxed zero value"}
